@@ -2,6 +2,7 @@ package vlib
 
 import (
 	"fmt"
+	"strings"
 
 	"pgregory.net/rapid"
 )
@@ -83,6 +84,11 @@ func (s *splitter) fileName(dir string, sameDir bool) string {
 			name = "common.jst"
 		default:
 			name = fmt.Sprintf("f%d.jst", k)
+		}
+		// names that differ only in letter case are different files
+		if rapid.IntRange(0, 2).Draw(s.t, "upperCase") == 0 {
+			i := strings.LastIndex(name, "/") + 1
+			name = name[:i] + strings.ToUpper(name[i:i+1]) + name[i+1:]
 		}
 		if !s.used[dir+name] && dir+name != "root.jst" {
 			s.used[dir+name] = true
